@@ -27,6 +27,14 @@ def evaluate_estimation_circuits(
         symbols_maps: a list of dictionaries (or singular dictionary) that map the
             symbolic symbols used in the parametrized circuits to the associated values
     """
+    if len(symbols_maps) == 1:
+        # A single map is used for every task (zip alone would drop all tasks but one).
+        symbols_maps = list(symbols_maps) * len(estimation_tasks)
+    if len(symbols_maps) != len(estimation_tasks):
+        raise ValueError(
+            "Expected one symbols map, or one per estimation task. Got "
+            f"{len(symbols_maps)} maps for {len(estimation_tasks)} tasks."
+        )
     return [
         EstimationTask(
             operator=estimation_task.operator,
